@@ -648,6 +648,8 @@ def tie_params(rng, names, variant):
       rates   every migration rate the same number and every selection coefficient the same number; sizes, durations distinct
       m0      one migration rate (drawn) exactly 0.0, the others distinct and positive; every size the same number
       all     sizes, durations, rates, selection coefficients each tied, fractions exactly 1/2
+      zero:i / zero:i+j   the i-th (and j-th) migration rate of the model exactly 0.0, everything else a generic draw (the end point
+              m = 0 of the bounds for some directions only)
     A class with a single parameter cannot be tied; the count tells whether the vector differs in kind from a generic draw."""
     base = draw_swap_params(rng, names)
     cls = ['frac' if pclass(n) in ('s', 'f', 'F') else pclass(n) for n in names]
@@ -678,7 +680,18 @@ def tie_params(rng, names, variant):
             forced += 1
         else:
             forced = 0
+    if variant.startswith('zero:'):
+        zs = {int(k) for k in variant[5:].split('+')}
+        if zs and max(zs) < count.get('m', 0):
+            mvals = [v for v, c in zip(base, cls) if c == 'm']
+            kw['m'] = lambda k: 0.0 if k in zs else mvals[k]
+            forced = len(zs)
     return _with(names, base, **kw), forced
+
+
+def zero_sets(nm):
+    """The variants 'zero:...' of a model with nm migration-rate parameters: each single rate, then each pair."""
+    return ['zero:%d' % i for i in range(nm)] + ['zero:%d+%d' % (i, j) for i in range(nm) for j in range(i + 1, nm)]
 
 
 def tie_groups(ctx, rng):
@@ -758,10 +771,13 @@ def _scale(v, num, den):
     return rat(Fraction(v) * Fraction(num, den))
 
 
-def mutations(groups, traces):
-    """[(events, clause that must be reported)]"""
+def mutations(groups, traces, rejected=()):
+    """[(events, clause that must be reported)]; groups that the trace spec already rejected are not used as a source
+    (a corruption of a malformed observation may be reported under another clause)."""
     out = []
     seen = set()
+    keep = [(g, tr) for g, tr in zip(groups, traces) if tr and tr[0].get('tid') not in rejected]
+    groups, traces = [g for g, _ in keep], [tr for _, tr in keep]
 
     def once(name):
         if name in seen:
@@ -954,7 +970,7 @@ def run(ctx):
     groups = gen_groups(ctx, rng)
     traces, verdicts, st = validate(groups)
     # binding demonstration
-    muts = mutations(groups, traces)
+    muts = mutations(groups, traces, rejected=set(verdicts))
     mrecs = [e for m, _ in muts for e in m]
     mv, _ = common.validate_trace(TRACE_SPEC, mrecs, parallel=4, groups=[m for m, _ in muts])
     missed = []
@@ -962,8 +978,10 @@ def run(ctx):
         got = mv.get(m[0]['tid'], [])
         if not any(c.startswith(clause) for c in got):
             missed.append((m[0]['tid'], clause, got))
-    if missed or len(muts) < 10:
+    if (missed or len(muts) < 10) and not verdicts:
         raise common.MachineryError('binding demonstration failed: corrupted traces not rejected with the expected clause: %s (mutations built: %d)' % (missed[:5], len(muts)))
+    # (same rule as common.pipeline: when the tree under test is already being rejected, a mutator may be vacuous on its malformed
+    # observations - e.g. state kept between calls makes the copy of a good group differ from it; the violations are reported, the gap noted)
     res['violations'] += violations_of(groups, verdicts)
     cov = res['coverage']
     kinds = {}
@@ -998,5 +1016,7 @@ def run(ctx):
                                      'calibration': '2026-10-04, clean tree, 1004 tied swap groups (79 relabellings x 4 variants x 4 draws): contraction <= 0.133 where the '
                                                     'asymmetry exceeds the floor; 236 groups at round-off (<= 2.3e-14 of the largest entry)'}
     cov['binding_demo'] = {'mutated_traces': len(muts), 'rejected_with_expected_clause': len(muts) - len(missed), 'clauses': sorted({c for _, c in muts})}
+    if missed:
+        cov['binding_demo']['accepted_mutants_on_a_violating_tree'] = [[t, c, sorted(got)] for t, c, got in missed[:10]]
     cov['samples'] = [common._shorten(e) for e in traces[len(traces) // 2][:4]]
     return res
